@@ -310,6 +310,13 @@ func Round10Families() []OutsideAtom {
 	addDecl("binder_method_parameter", "type S_ID struct {\n\tn uint64\n}\n\nfunc (s S_ID) down(S_ID__down uint64) uint64 {\n\tif s.n == 0 {\n\t\treturn S_ID__down\n\t}\n\treturn S_ID{n: s.n - 1}.down(S_ID__down)\n}\n\nfunc ID_fn(a uint64) uint64 {\n\treturn S_ID{n: 3}.down(a)\n}")
 	addDecl("binder_function_parameter", "func r_ID(r_ID uint64) uint64 {\n\treturn r_ID + 1\n}\n\nfunc ID_fn(a uint64) uint64 {\n\treturn r_ID(a)\n}")
 	addDecl("binder_local_variable", "func r_ID(n uint64) uint64 {\n\tr_ID := n + 1\n\treturn r_ID\n}\n\nfunc ID_fn(a uint64) uint64 {\n\treturn r_ID(a)\n}")
+	// --- grouped declarations: a refused spec next to good ones
+	addDecl("grp_var_one_bad_spec", "var (\n\tV1_ID uint64  = 1\n\tV2_ID float64 = 2\n\tV4_ID uint64  = 4\n)\n\nfunc ID_fn(a uint64) uint64 {\n\treturn a + V1_ID + V4_ID\n}")
+	addDecl("grp_var_bad_first", "var (\n\tV2_ID float64 = 2\n\tV4_ID uint64  = 4\n)\n\nfunc ID_fn(a uint64) uint64 {\n\treturn a + V4_ID\n}")
+	addDecl("grp_var_bad_last", "var (\n\tV1_ID uint64 = 1\n\tV3_ID int8   = 3\n)\n\nfunc ID_fn(a uint64) uint64 {\n\treturn a + V1_ID\n}")
+	addDecl("grp_const_one_bad_spec", "const (\n\tA_ID uint64 = 1\n\tB_ID        = 1.5\n\tC_ID uint64 = 3\n)\n\nfunc ID_fn(a uint64) uint64 {\n\treturn a + A_ID + C_ID\n}")
+	addDecl("grp_const_all_good", "const (\n\tA_ID uint64 = 1\n\tC_ID uint64 = 3\n)\n\nfunc ID_fn(a uint64) uint64 {\n\treturn a + A_ID + C_ID\n}")
+	addDecl("grp_var_two_bad_specs", "var (\n\tV1_ID uint64  = 1\n\tV2_ID float64 = 2\n\tV3_ID int8    = 3\n\tV4_ID uint64  = 4\n)\n\nfunc ID_fn(a uint64) uint64 {\n\treturn a + V1_ID + V4_ID\n}")
 	// --- nil outside comparisons (recorded finding: the gold files pin `SliceSet ptrT "s" #2 slice.nil`)
 	nl := "type L_ID struct {\n\tv    uint64\n\tnext *L_ID\n}\n\nfunc isNil_ID(p *L_ID) bool {\n\treturn p == nil\n}\n\n"
 	addDecl("nilctx_pointer_argument", nl+"func ID_fn(a uint64) uint64 {\n\tif isNil_ID(nil) {\n\t\treturn a + 1\n\t}\n\treturn 0\n}")
